@@ -329,13 +329,26 @@ Definition obs_eqb (a b : obs) : bool :=
   | _, _ => false
   end.
 
+(** every iteration order of a small tag set (round 2: the Go map is iterated in an order that changes from run to run) *)
+Fixpoint insert_all {A} (x : A) (l : list A) : list (list A) :=
+  match l with
+  | [] => [[x]]
+  | y :: l' => (x :: l) :: map (cons y) (insert_all x l')
+  end.
+Fixpoint perms {A} (l : list A) : list (list A) :=
+  match l with [] => [[]] | x :: l' => flat_map (insert_all x) (perms l') end.
+
 Inductive ccase :=
 | CHam (a b : str) (n : N)
 | CLev (a b : str) (n : N)
 | CClosest (tags : list (str * str)) (t : str) (fwd : bool) (lev : bool) (otag : str) (od : option N)
 | CLook (s : str) (d : N) (out : str)
 | CRescue (s : str) (d : N) (tl border indel : N) (out : str)
-| CDemux (lib : list marker) (s : str) (o : obs).
+| CDemux (lib : list marker) (s : str) (o : obs)
+(* the tags in ONE observed iteration order are a [CClosest] case; here: every permutation of the tag list gives the observed answer *)
+| CClosestAll (tags : list str) (t : str) (lev : bool) (otag : str) (od : option N)
+(* primer matches supplied by the library's matcher (re-aligned spans when the primers allow indels) *)
+| CDemuxH (lib : list marker) (s : str) (hits : list hit) (o : obs).
 
 Definition case_ok (c : ccase) : bool :=
   match c with
@@ -347,6 +360,10 @@ Definition case_ok (c : ccase) : bool :=
   | CLook s d out => str_eqb (look_for_tag s d) out
   | CRescue s d tl b i out => str_eqb (look_for_rescue_tag s d (Z.of_N tl) (Z.of_N b) (Z.of_N i)) out
   | CDemux lib s o => obs_eqb (demux lib s) o
+  | CClosestAll tags t lev otag od =>
+      forallb (fun p => let r := closest (if lev then levenshtein else hamming) p t in
+                        str_eqb (fst r) otag && optN_eqb (option_map N.of_nat (snd r)) od) (perms tags)
+  | CDemuxH lib s hits o => obs_eqb (demux_hits lib s hits) o
   end.
 Fixpoint mismatches_from (i : nat) (l : list ccase) : list nat :=
   match l with
